@@ -332,7 +332,7 @@ QUICK = {
     'C06': ['c06_wellformed_exact'] + _g('c06_semilegal_validator', [('w', 'king'), ('w', 'pawn'), ('b', 'knight'), ('b', 'bishop'), ('w', 'rook'), ('b', 'queen'),
             ('w', 'ep'), ('b', 'ep'), ('w', 'castling'), ('b', 'castling')]),
     'C07': ['c07_outcome_classification_nomove_w', 'c07_outcome_classification_move_b', 'c07_castling_never_only_move_w', 'c07_castling_never_only_move_b'],
-    'C09': ['c09_san_simple_pawn_refused', 'c09_san_into_move_castling_w', 'c12_san_parse_total_5'],
+    'C09': ['c09_san_simple_pawn_refused', 'c12_san_parse_total_5'],
     'C10': _g('c10_uci_struct_roundtrip', [('w', 'king'), ('w', 'pawn'), ('w', 'pspecial'), ('w', 'ep'), ('w', 'castling'), ('b', 'knight'), ('b', 'bishop'), ('b', 'rook'),
             ('b', 'queen'), ('b', 'ep')]) + ['c10_uci_parse_exact'],
     'C11': ['c11_validate_accept_w', 'c11_validate_accept_b', 'c11_validate_normal_w', 'c11_validate_idem_b'],
